@@ -10,10 +10,12 @@ import (
 
 	sdkmath "cosmossdk.io/math"
 	sdk "github.com/cosmos/cosmos-sdk/types"
+	authtypes "github.com/cosmos/cosmos-sdk/x/auth/types"
 	vestexported "github.com/cosmos/cosmos-sdk/x/auth/vesting/exported"
 	vestingtypes "github.com/cosmos/cosmos-sdk/x/auth/vesting/types"
 	"github.com/cosmos/cosmos-sdk/x/authz"
 	banktypes "github.com/cosmos/cosmos-sdk/x/bank/types"
+	"github.com/ethereum/go-ethereum/common"
 	"github.com/ethereum/go-ethereum/crypto"
 	"pgregory.net/rapid"
 
@@ -48,7 +50,7 @@ const (
 var secp256k1N, _ = new(big.Int).SetString("fffffffffffffffffffffffffffffffebaaedce6af48a03bbfd25e8cd0364141", 16)
 
 func c16World() chain.World {
-	w := chain.World{GenesisTime: 1700000000, NumVals: 1, BaseFee: "1000000000", MinGasPrice: "0", MaxGas: 40000000, NoInflation: true}
+	w := chain.World{GenesisTime: 1700000000, NumVals: 1, BaseFee: "1000000000", MinGasPrice: "0", MaxGas: 40000000, NoInflation: true, Erc20Native: true}
 	fee, _ := new(big.Int).SetString(c16FeeStr, 10)
 	txFee, _ := new(big.Int).SetString(c16TxFee, 10)
 	for i := 0; i < 6; i++ {
@@ -69,6 +71,16 @@ func genC16(t *rapid.T) c16Case {
 	sigs := []string{"valid", "valid", "valid", "otherkey", "othermsg", "truncated", "extended", "uppercase", "v27", "random", "malleated", "no0x"}
 	for n := rapid.IntRange(2, 10).Draw(t, "nsteps"); n > 0; n-- {
 		s := c16Step{Submitter: rapid.IntRange(0, 5).Draw(t, "submitter"), Target: rapid.IntRange(0, c16Targets-1).Draw(t, "target")}
+		if rapid.IntRange(0, 7).Draw(t, "isfund") == 0 {
+			// coins reach the vauth module account (through the ERC-20 precompile, which skips the bank block list):
+			// later submissions must still burn exactly the fee
+			s.Kind = "fund"
+			if s.Submitter > 3 {
+				s.Submitter = 1
+			}
+			cs.Steps = append(cs.Steps, s)
+			continue
+		}
 		if rapid.IntRange(0, 2).Draw(t, "isvest") == 2 {
 			s.Kind = rapid.SampledFrom([]string{"vest", "vestperiodic", "vestperm"}).Draw(t, "vkind")
 			s.Nest = rapid.SampledFrom([]int{0, 0, 0, 1, 2, 3}).Draw(t, "nest")
@@ -171,6 +183,21 @@ func runC16(cs c16Case) *Outcome {
 		}
 		accNum, seq, ok := c.AccountInfo(ctx, chain.K(st.Submitter).Acc())
 		if !ok {
+			continue
+		}
+		if st.Kind == "fund" {
+			vauthMod := common.BytesToAddress(authtypes.NewModuleAddress(vauthtypes.ModuleName))
+			bz, _, err := chain.EthTx{From: st.Submitter, Type: 0, Nonce: seq, Gas: 300000, GasPrice: "2000000000", To: erc20NativeAddr().Hex(),
+				Data: packErc20("transfer", vauthMod, big.NewInt(300000000000000000))}.Build(c.TxCfg)
+			if err == nil {
+				if _, err := c.RunBlock(chain.Block{Dt: 3, Txs: [][]byte{bz}}); err != nil {
+					o.dev("", "step %d: funding block failed: %v", si, err)
+					return o
+				}
+				if c.App.BankKeeper.GetBalance(c.CommittedCtx(), vauthMod.Bytes(), chain.Denom).IsPositive() {
+					o.label("vauth-module-account-funded")
+				}
+			}
 			continue
 		}
 		target := chain.ExtraKey(st.Target)
